@@ -28,7 +28,7 @@ CHECK_DEADLOCK FALSE
 
 def label_selfcheck(ctx, corpus_path):
     """The specification is tested against the labels of toml-test before it judges the code."""
-    recs = [r for r in core.read_ndjson(corpus_path) if "text" in r]
+    recs = [r for r in core.iter_ndjson(corpus_path) if "text" in r]
     evs = [{"ev": "label", "id": r["id"], "lab": r["lab"], "text": r["text"]} for r in recs]
     p = ctx.path("labels.ev")
     core.write_ndjson(p, evs)
@@ -191,7 +191,7 @@ def value_texts(ctx, gen_path):
     pre = [107, 32, 61, 32]
     out = []
     seen = set()
-    for r in core.read_ndjson(gen_path):
+    for r in core.iter_ndjson(gen_path):
         t = r["text"]
         if len(t) > 5 and t[:4] == pre and t[-1] == 10:
             v = tuple(t[4:-1])
